@@ -1,6 +1,7 @@
 """C20 — the event log is a faithful, balanced account of every frame."""
 import re
 from vlib.core import *
+from rules.common import borrowed_rule, alts, is_call, calls_in, peel, short
 
 LAYERS = {
     'layer_2::reply': 'eth', 'layer_2::arp::repl': 'arp', 'layer_3::ipv4::repl': 'ipv4',
@@ -483,6 +484,31 @@ def run(ctx):
             if k in ('w', 'rw') and any(a.endswith('ClientInfo') for a, _ in ch):
                 others.append(fid)
     rep.check(r4, not others, 'app-layer:no-other-rewrite', 'other application-layer writers of ClientInfo: %s' % sorted(set(others)))
+
+    # every event of one frame prints that frame's own addresses: the ClientInfo fields the loggers print are written once,
+    # by the layer that parsed them, with the request's value (C03-R2 decides the full writer table on the same facts) - an
+    # overwrite in mid-frame makes the later send events name a peer the earlier recv events did not
+    borrowed_rule(ctx, 'C20', 'R4b', 'the ClientInfo fields printed with every event are written only by the layer that parsed them, with the value of the request field - never rewritten between the recv and the send events of a frame (C03-R2, same facts)',
+                  'C03', lambda r_, k_: r_ == 'C03-R2', floor=12)
+
+    # R7: a logged send is a frame on the wire.  The send events are logged inside layer_2::reply and below; whatever sits
+    # between its return and the datalink sender must hand the frame on unchanged, or the log claims a reply nobody got.
+    r7 = rep.rule('C20-R7', 'between layer_2::reply and the wire nothing drops or replaces the reply: the top-level reply() returns the result of layer_2::reply as it is (or None before calling it), and main() passes the frame returned by reply() to DataLinkSender::send_to', floor=2)
+    top = F.fn('reply')
+    mn = F.fn('main')
+    rep.saw(top, mn)
+    rv = [a for rb in top.return_blocks() for a in alts(top.ret_value(rb))]
+
+    def _is_l2(a):
+        return is_call(peel(a, unwraps=False), r'^layer_2::reply$')
+
+    def _is_none(a):
+        return isinstance(a, tuple) and a[0] == 'agg' and str(a[1]).endswith('Option::None')
+    other = [short(a)[:80] for a in rv if not _is_l2(a) and not _is_none(a)]
+    rep.check(r7, any(_is_l2(a) for a in rv) and not other, 'reply:returns-layer2-result', 'reply() returns %s' % ([short(a)[:60] for a in rv] if other else 'layer_2::reply(..) or None'), '%s:%d' % (top.file, top.line))
+    snd = mn.calls(r'DataLinkSender::send_to$')
+    oks = [bi for bi, t in snd if calls_in(mn.argv(bi, 1), r'^reply$') and is_call(peel(mn.argv(bi, 1), unwraps=False), r'::packet$')]
+    rep.check(r7, len(snd) >= 1 and len(oks) == len(snd), 'main:sends-what-reply-returned', 'send_to sites: %d, sending packet() of the frame returned by reply(): %d' % (len(snd), len(oks)), mn.loc(snd[0][0]) if snd else '')
 
     # R5: a frame whose processing aborts leaves recv events without their terminal event - balance presupposes
     # that nothing between reply()'s entry and its return can panic, which is what the C01 inventory decides
